@@ -95,7 +95,10 @@ type s1 struct {
 	sinprog       map[s1key]bool
 	// benign header reads: UE reads of a slice header used only for cap()/reslice-store-back/nil test
 	constOnly bool
+	partial   []partialFill // raster fills of tracked buffers that skip elements on some path
 }
+
+func (s *s1) Partial() []partialFill { return s.partial }
 
 func newS1(p *Program) *s1 {
 	return &s1{p: p, sums: map[s1key]*s1sum{}, inprog: map[s1key]bool{}, prov: map[s1key]*s1sum{}, recursed: map[s1key]bool{}, dependsOnProv: map[s1key]bool{}, ssums: map[s1key]*sliceSum{}, sinprog: map[s1key]bool{}}
@@ -1154,7 +1157,172 @@ func (r *s1run) fullRangeLoops() map[*ssa.BasicBlock]map[*ssa.BasicBlock]locSet 
 			}
 		}
 	}
+	r.rasterLoops(out)
 	return out
+}
+
+// countedLoop recognises "for i := 0; i < N; i++" (and the rangeindex form) at header b.
+func countedLoop(b *ssa.BasicBlock) (idx, bound ssa.Value, latch *ssa.BasicBlock, ok bool) {
+	if len(b.Instrs) == 0 {
+		return
+	}
+	ifi, isIf := b.Instrs[len(b.Instrs)-1].(*ssa.If)
+	if !isIf {
+		return
+	}
+	cmp, isCmp := ifi.Cond.(*ssa.BinOp)
+	if !isCmp || cmp.Op != token.LSS {
+		return
+	}
+	if phi, isPhi := cmp.X.(*ssa.Phi); isPhi && phi.Block() == b && len(phi.Edges) == 2 {
+		zero := false
+		var inc *ssa.BinOp
+		for _, e := range phi.Edges {
+			if c, isC := e.(*ssa.Const); isC && c.Value != nil && c.Int64() == 0 {
+				zero = true
+			} else if bo, isB := e.(*ssa.BinOp); isB && bo.Op == token.ADD && bo.X == ssa.Value(phi) {
+				if c, isC := bo.Y.(*ssa.Const); isC && c.Value != nil && c.Int64() == 1 {
+					inc = bo
+				}
+			}
+		}
+		if zero && inc != nil {
+			return phi, cmp.Y, inc.Block(), true
+		}
+	}
+	return
+}
+
+// rasterLoops recognises the two-dimensional fill
+//
+//	for y := 0; y < H; y++ { for x := 0; x < W; x++ { X[y*W+x] = v } }
+//
+// where the store is on every path of the inner body and every assignment of X in the function gives
+// it the length W*H (reslice to W*H, or make of W*H): all elements of X are written when the outer
+// loop exits.
+func (r *s1run) rasterLoops(out map[*ssa.BasicBlock]map[*ssa.BasicBlock]locSet) {
+	for _, bo := range r.fn.Blocks {
+		yIdx, hB, yLatch, ok := countedLoop(bo)
+		if !ok {
+			continue
+		}
+		oBody, oExit := bo.Succs[0], bo.Succs[1]
+		for _, bi := range r.fn.Blocks {
+			if bi == bo || !oBody.Dominates(bi) || !(bi == yLatch || bi.Dominates(yLatch)) {
+				continue
+			}
+			xIdx, wB, xLatch, ok := countedLoop(bi)
+			if !ok {
+				continue
+			}
+			iBody := bi.Succs[0]
+			// a raster store into a tracked (pooled) buffer that some path of the inner body skips:
+			// the skipped elements keep what the buffer held before
+			for _, bb := range r.fn.Blocks {
+				if !iBody.Dominates(bb) || bb == xLatch || bb.Dominates(xLatch) || !reachesBlock(bb, xLatch) {
+					continue
+				}
+				for _, in := range bb.Instrs {
+					st, ok := in.(*ssa.Store)
+					if !ok {
+						continue
+					}
+					ia, ok := st.Addr.(*ssa.IndexAddr)
+					if !ok || !rasterIndex(ia.Index, yIdx, xIdx, wB) {
+						continue
+					}
+					if p, k := r.vpath(ia.X, 0); k == 1 || k == 3 {
+						loc, _ := locOf(p)
+						// unless another store of the same raster cell is made on the other paths
+						if !r.rasterStoredOnAllPaths(iBody, xLatch, ia.X, yIdx, xIdx, wB) {
+							r.s.partial = append(r.s.partial, partialFill{FnName(r.fn), loc, st.Pos()})
+						}
+					}
+				}
+			}
+			for _, bb := range r.fn.Blocks {
+				if !iBody.Dominates(bb) || !(bb == xLatch || bb.Dominates(xLatch)) {
+					continue
+				}
+				for _, in := range bb.Instrs {
+					st, ok := in.(*ssa.Store)
+					if !ok {
+						continue
+					}
+					ia, ok := st.Addr.(*ssa.IndexAddr)
+					if !ok || !rasterIndex(ia.Index, yIdx, xIdx, wB) {
+						continue
+					}
+					p, k := r.vpath(ia.X, 0)
+					if k != 1 && k != 3 {
+						continue
+					}
+					loc, exact := locOf(p)
+					if !exact || !r.lengthIsProduct(p, wB, hB) {
+						continue
+					}
+					if r.cons && !isConstLike(st.Val) {
+						continue
+					}
+					if out[bo] == nil {
+						out[bo] = map[*ssa.BasicBlock]locSet{}
+					}
+					if out[bo][oExit] == nil {
+						out[bo][oExit] = locSet{}
+					}
+					out[bo][oExit][loc+"[]"] = true
+				}
+			}
+		}
+	}
+}
+
+// rasterIndex: idx is y*W + x (in either order of the operands).
+func rasterIndex(idx, y, x, w ssa.Value) bool {
+	add, ok := idx.(*ssa.BinOp)
+	if !ok || add.Op != token.ADD {
+		return false
+	}
+	isMul := func(v ssa.Value) bool {
+		m, ok := v.(*ssa.BinOp)
+		return ok && m.Op == token.MUL && ((m.X == y && m.Y == w) || (m.X == w && m.Y == y))
+	}
+	return (isMul(add.X) && add.Y == x) || (isMul(add.Y) && add.X == x)
+}
+
+// lengthIsProduct: every store to the location in this function gives it the length w*h.
+func (r *s1run) lengthIsProduct(path []string, w, h ssa.Value) bool {
+	isProd := func(v ssa.Value) bool {
+		m, ok := v.(*ssa.BinOp)
+		return ok && m.Op == token.MUL && ((m.X == w && m.Y == h) || (m.X == h && m.Y == w))
+	}
+	n := 0
+	for _, b := range r.fn.Blocks {
+		for _, in := range b.Instrs {
+			st, ok := in.(*ssa.Store)
+			if !ok {
+				continue
+			}
+			p, k := r.vpath(st.Addr, 0)
+			if k != 1 || strings.Join(p, ".") != strings.Join(path, ".") {
+				continue
+			}
+			n++
+			switch v := st.Val.(type) {
+			case *ssa.Slice:
+				if v.High == nil || !isProd(v.High) {
+					return false
+				}
+			case *ssa.MakeSlice:
+				if !isProd(v.Len) {
+					return false
+				}
+			default:
+				return false
+			}
+		}
+	}
+	return n > 0
 }
 
 func (r *s1run) run(entryW locSet) (mw locSet, retThis bool, mwRet locSet) {
@@ -1760,4 +1928,62 @@ func reuseHelper(fn *ssa.Function) (param int, ok bool) {
 		}
 	}
 	return 0, false
+}
+
+type partialFill struct {
+	fn, loc string
+	pos     token.Pos
+}
+
+func reachesBlock(a, b *ssa.BasicBlock) bool {
+	seen := map[*ssa.BasicBlock]bool{}
+	st := []*ssa.BasicBlock{a}
+	for len(st) > 0 {
+		x := st[len(st)-1]
+		st = st[:len(st)-1]
+		if x == b {
+			return true
+		}
+		if seen[x] {
+			continue
+		}
+		seen[x] = true
+		st = append(st, x.Succs...)
+	}
+	return false
+}
+
+// rasterStoredOnAllPaths: every path from the inner body to the latch passes a store to base[y*W+x]
+// (if/else arms that each store the cell).
+func (r *s1run) rasterStoredOnAllPaths(body, latch *ssa.BasicBlock, base, y, x, w ssa.Value) bool {
+	stores := map[*ssa.BasicBlock]bool{}
+	for _, b := range r.fn.Blocks {
+		for _, in := range b.Instrs {
+			if st, ok := in.(*ssa.Store); ok {
+				if ia, ok := st.Addr.(*ssa.IndexAddr); ok && ia.X == base && rasterIndex(ia.Index, y, x, w) {
+					stores[b] = true
+				}
+			}
+		}
+	}
+	// search for a path body -> latch avoiding store blocks
+	seen := map[*ssa.BasicBlock]bool{}
+	st := []*ssa.BasicBlock{body}
+	for len(st) > 0 {
+		b := st[len(st)-1]
+		st = st[:len(st)-1]
+		if seen[b] || stores[b] {
+			continue
+		}
+		seen[b] = true
+		if b == latch {
+			return false
+		}
+		for _, n := range b.Succs {
+			if body.Dominates(n) {
+				st = append(st, n)
+			}
+		}
+	}
+	return true
 }
